@@ -163,7 +163,7 @@ static bool structural_fault_besides_token_fault(const std::string& text, const 
     if (c == '"') {
       size_t k = i + 1;
       while (k < text.size() && text[k] != '"') k += (text[k] == '\\' && k + 1 < text.size()) ? 2 : 1;
-      if (k >= text.size()) return false;  // unterminated literal: the String fault itself is the structural one
+      if (k >= text.size()) break;  // unterminated literal: the text is cut inside it; the skeleton ends here (a truncation)
       sk += "\"\"";
       i = k + 1;
     } else if (isdigit(c) || c == '-') {
@@ -787,6 +787,25 @@ int main(int argc, char** argv) {
                    one_input(p + "[[]" + ws);
                  }
                }, false});
+  // texts with two faults: openers that exhaust the node budget (or are simply never closed), then a faulty token of every
+  // kind, then more text that may itself end inside a string literal
+  S.push_back({"faulty_token_in_structurally_broken_text", 4000, 200000, [](uint64_t, vf::Rng& r) {
+                 static const char* toks[] = {"1E400", "157e93134862315852315308", "\"a\\qb\"", "\"\\u12g4\"", "\"\\ud800\"", "\"tab\there\"", "\"nul\0byte\"", "-", "01", "1.", "tru", "\"\\"};
+                 std::string t(r.below(4), ' ');
+                 size_t n = r.range(1, 120);
+                 for (size_t k = 0; k < n; k++) t += r.below(6) ? "[" : "{\"k\":";
+                 std::string tok = toks[r.below(12)];
+                 if (tok == "\"nul\0byte\"") tok = std::string("\"nul") + '\0' + "byte\"";
+                 t += tok;
+                 switch (r.below(5)) {
+                   case 0: break;
+                   case 1: t += "]"; break;
+                   case 2: t += ",[[],{\"x\": 8460597630904001651},[-2.28"; break;
+                   case 3: t += "[[[[\r'{.k\":?0e0]}"; break;
+                   default: t += ",\"unterminated"; break;
+                 }
+                 one_input(t);
+               }});
   // texts with the maximal number of values per byte (one-character scalars, no blanks, empty keys): the parser's node stack
   // is sized from the text length, so these are the valid texts that fill it to the brim; every length 2..400
   S.push_back({"densest_valid_texts", 400, 400, [](uint64_t i, vf::Rng& r) {
